@@ -320,11 +320,24 @@ func Main(run *evid.Run, scenarios []*Scenario, budget time.Duration) {
 		}
 		only := os.Getenv("VERIF_ONLY")
 		w := bufio.NewWriter(os.Stdout)
+		var todo []*Scenario
 		for _, sc := range scenarios {
 			if only != "" && !strings.Contains(sc.Name, only) {
 				continue
 			}
-			res := exploreScenario(sc, shard, shards, deadline)
+			todo = append(todo, sc)
+		}
+		for i, sc := range todo {
+			// every scenario gets an equal share of the remaining time budget
+			scDeadline := deadline
+			if !deadline.IsZero() {
+				remaining := time.Until(deadline)
+				if remaining < 0 {
+					remaining = 0
+				}
+				scDeadline = time.Now().Add(remaining / time.Duration(len(todo)-i))
+			}
+			res := exploreScenario(sc, shard, shards, scDeadline)
 			data, _ := json.Marshal(res)
 			w.Write(data)
 			w.WriteByte('\n')
